@@ -424,7 +424,7 @@ def rule_expiry(ctx):
                       b.loc(bi))
     tp = prog.callers_of("ebr_impl::sync::queue::Queue::<T>::try_pop")
     names = sorted({prog.home(b.name) for (b, _, _, _) in tp})
-    ok = names == ["<ebr_impl::sync::queue::Queue<T> as std::ops::Drop>::drop"]
+    ok = names in (["<ebr_impl::sync::queue::Queue<T> as std::ops::Drop>::drop"], [])
     r.instance("unconditional try_pop called only from Queue::drop", ok)
     if not ok:
         r.violate("ebr_impl::sync::queue::Queue::<T>::try_pop", "callers", "unconditional pop of sealed bags from %s" % names)
@@ -869,6 +869,60 @@ def rule_finalize_handoff(ctx):
     return r
 
 
+def rule_queue_drop(ctx):
+    r = RuleResult("EBR-QUEUE-DROP", ["C15"],
+                   "Queue::drop takes every remaining element out of its node (so that sealed bags still queued at collector "
+                   "teardown are dropped, i.e. their deferred functions run) and frees the sentinel")
+    prog = ctx.prog
+    qd = prog.body("<ebr_impl::sync::queue::Queue<T> as std::ops::Drop>::drop")
+    r.functions.add(qd.name)
+    # functions reachable from Queue::drop inside queue.rs
+    reach = set()
+    work = [qd.name]
+    while work:
+        f = work.pop()
+        if f in reach:
+            continue
+        reach.add(f)
+        b = prog.bodies.get(f)
+        if b is None:
+            continue
+        for (_, _, c) in b.calls():
+            if c.target in prog.bodies and prog.bodies[c.target].file().endswith("queue.rs"):
+                work.append(c.target)
+            for cn in c.closure_args():
+                work.append(cn)
+    takes = []
+    for f in reach:
+        b = prog.bodies.get(f)
+        for (bi, t, c) in b.calls():
+            nt = norm(c.target or "")
+            if nt in ("std::mem::MaybeUninit::assume_init_read", "std::mem::MaybeUninit::assume_init_drop",
+                      "std::mem::MaybeUninit::assume_init", "std::ptr::drop_in_place"):
+                takes.append((f, nt))
+    ok = bool(takes)
+    r.instance("Queue::drop reaches a payload-taking operation on Node.data (%s)" % sorted({t[1].split("::")[-1] for t in takes}), ok)
+    if not ok:
+        r.violate(qd.name, "payload", "dropping the queue frees its nodes without taking the elements out of their MaybeUninit "
+                  "slots: bags still queued at teardown are discarded and their deferred functions never run", qd.loc(0))
+    # it loops until empty and frees the sentinel
+    loops = bool(qd.back_edges())
+    frees = any(norm(c.target or "") == "ebr_impl::pointers::RawShared::drop" for (_, _, c) in qd.calls())
+    r.instance("Queue::drop drains in a loop", loops)
+    if not loops:
+        r.violate(qd.name, "loop", "Queue::drop does not drain the queue in a loop", qd.loc(0))
+    r.instance("Queue::drop frees the sentinel", frees)
+    if not frees:
+        r.violate(qd.name, "sentinel", "the remaining sentinel node is never freed", qd.loc(0))
+    # Global owns the queue by value, so dropping the last Collector drops it
+    ok = any(a["path"] == "ebr_impl::internal::Global" and any(f["name"] == "queue" and f["ty"].startswith("ebr_impl::sync::queue::Queue<")
+             for f in a["variants"][0]["fields"]) for a in prog.items["adts"])
+    r.instance("Global holds the queue by value", ok)
+    if not ok:
+        r.violate("ebr_impl::internal::Global", "queue", "the garbage queue is not owned by value by Global")
+    return r
+
+
 def rule_no_forget(ctx):
     r = RuleResult("EBR-NO-FORGET", ["C15", "C20"],
                    "no mem::forget / ManuallyDrop::new at Bag, SealedBag, Deferred, LocalHandle, Collector (one tabled "
@@ -1168,6 +1222,36 @@ def rule_list(ctx):
                     okins = True
                 else:
                     r.violate(ins.name, "retry", "insert's retry does not use the observed head", cas[k + 1][1].loc())
+    # writer table of Entry.next: plain stores only on the not-yet-published entry in insert; the deletion mark is one
+    # atomic RMW (fetch_or); unlinking is a CAS. A load+store pair can overwrite a concurrent unlink of the successor.
+    WR = {"store": {"ebr_impl::sync::list::List::<T, C>::insert": "entry not yet published"},
+          "fetch_or": {"ebr_impl::sync::list::Entry::delete": "the deletion mark"},
+          "compare_exchange": {nx.name: "unlink"}, "compare_exchange_weak": {}}
+    nwr = 0
+    for name, b in prog.bodies.items():
+        for p in ctx.ex.paths(b) if any(norm(c.target or "").startswith("ebr_impl::pointers::RawAtomic::") for (_, _, c) in b.calls()) else []:
+            for e in p.events:
+                if e.kind != "call" or not norm(e.target or "").startswith("ebr_impl::pointers::RawAtomic::"):
+                    continue
+                op = norm(e.target)[len("ebr_impl::pointers::RawAtomic::"):]
+                if op in ("load", "null"):
+                    continue
+                if outer_field(e.args[0]) != "Entry.next":
+                    continue
+                nwr += 1
+                home = prog.home(name)
+                ok = home in WR.get(op, {})
+                if op == "store" and ok:
+                    # the entry written must be the one being inserted (derived from the `container` parameter)
+                    ok = "container" in show(e.args[0]) or "entry_of" in show(e.args[0])
+                r.instance("%s: %s on Entry.next (%s)" % (home.split("::")[-1], op, WR.get(op, {}).get(home, "?")), ok)
+                if not ok:
+                    r.violate(home, "write:Entry.next:" + op, "writes a shared entry's next pointer with `%s`: marking must be a "
+                              "single atomic fetch_or and unlinking a CAS, or a concurrent unlink of the successor is "
+                              "overwritten (entry re-linked after it was finalized: double free)" % op, e.loc())
+    dl = prog.body("ebr_impl::sync::list::Entry::delete")
+    if not any(norm(c.target or "") == "ebr_impl::pointers::RawAtomic::fetch_or" for (_, _, c) in dl.calls()):
+        r.violate(dl.name, "mark", "Entry::delete does not mark the entry with an atomic fetch_or", dl.loc(0))
     r.instance("insert: retry with the observed successor until the CAS succeeds", okins)
     if not okins and not r.violations:
         r.violate(ins.name, "retry", "insert has no retry loop")
